@@ -246,3 +246,111 @@ Proof.
   - rewrite wuw_put. unfold w3, w2, w1. rewrite !wuw_put. exact Hfuse.
   - rewrite wuw_put. unfold w3, w2, w1. rewrite !wuw_put. reflexivity.
 Qed.
+
+(** ** lazy clones as value sources of push / insert *)
+Lemma raw_action_clone_spec c vv a u idx bs t0 k :
+  cfg_wf c -> VI c vv a -> dec (szn c) bs = Some t0 -> ufuse u = None -> can_take c vv 1 ->
+  let n := tok c (unext u) in
+  match put_value c a idx n with
+  | inl xs' => exists v' u', raw_action c idx (VClone bs k) (vv, u) = Ok tt (v', u') /\
+                 VI c v' (with_xs a xs') /\ unext u' = unext u + 1 /\ ufuse u' = None /\
+                 uevents u' = EClone t0 n :: uevents u
+  | inr p => raw_action c idx (VClone bs k) (vv, u) = Panic p (vv, u)
+  end.
+Proof.
+  intros Hwf HV Hd Hf Hc n. assert (HV' := HV). destruct HV' as [HR Hbk Hbwf Hcap Hfits].
+  pose proof (rep_len _ _ _ HR) as Hlen. pose proof (rep_cap _ _ _ HR) as Hle.
+  assert (Hroom_of : full c a = false -> vlen vv < vcap vv \/ grow_ok c vv (vcap vv + 1)).
+  { intros Hfl. exact (vi_full_false c vv a HV Hfl Hc). }
+  assert (Hfx_of : forall (Hroom : vlen vv < vcap vv \/ grow_ok c vv (vcap vv + 1)), fixed_backend (vbk vv) -> vlen vv < vcap vv).
+  { intros Hroom Fx. destruct Hroom as [Hlt|Hg]; [exact Hlt|].
+    unfold grow_ok in Hg. destruct (vbk vv); cbn [fixed_backend] in Fx; contradiction. }
+  unfold put_value, raw_action. destruct idx as [i|].
+  - destruct (N.ltb_spec (N.of_nat (length (a_xs a))) i) as [Hoob|Hin].
+    + apply (insert_oob c vv u (a_xs a)); assumption.
+    + destruct (full c a) eqn:Hfl.
+      * destruct (vi_full_true c vv a HV Hfl) as [He Hfx].
+        apply (insert_full_fixed c vv u (a_xs a)); auto. lia.
+      * pose proof (Hroom_of eq_refl) as Hroom.
+        assert (Hi : (N.to_nat i <= length (a_xs a))%nat) by lia.
+        destruct (insert_clone_ok c vv u (a_xs a) bs t0 k (N.to_nat i) Hwf HR Hd Hf Hi Hroom)
+          as (v' & u' & E & HR' & Hbk' & Hn' & Hf' & He' & Hpres).
+        rewrite N2Nat.id in E. exists v', u'. split; [exact E|].
+        split; [apply (vi_after_add c vv a v'); auto|]. auto.
+  - destruct (full c a) eqn:Hfl.
+    + destruct (vi_full_true c vv a HV Hfl) as [He Hfx].
+      apply (push_full_fixed c vv u (a_xs a)); auto.
+    + pose proof (Hroom_of eq_refl) as Hroom.
+      destruct (push_clone_ok c vv u (a_xs a) bs t0 k Hwf HR Hd Hf Hroom)
+        as (v' & u' & E & HR' & Hbk' & Hn' & Hf' & He' & Hpres).
+      exists v', u'. split; [exact E|].
+      split; [apply (vi_after_add c vv a v'); auto|]. auto.
+Qed.
+
+Lemma exec_offer_lazy c w st a vid idx d src sidx r :
+  cfg_wf c -> WRep c w st -> ufuse (wuw w) = None -> adm_vec c w vid ->
+  sp_offer_lazy c st (unext (wuw w)) vid idx src sidx = Some r ->
+  res_matches c w ((do o <- make_offer c (SLazy d src sidx);
+                    let o := match a with Typed => unchecked o | Erased => o end in
+                    offer_into c vid o (raw_action c idx);; ret (0, @nil N)) w) r.
+Proof.
+  intros Hwf HW Hfuse Hadm Hr. unfold sp_offer_lazy in Hr.
+  destruct (Nat.eqb_spec src vid) as [|Hne]; [discriminate|].
+  destruct (get_a vid st) as [av|] eqn:Hga; [|discriminate].
+  destruct (get_a src st) as [bv|] eqn:Hgb; [|discriminate].
+  destruct (wrep_get c w st vid av HW Hga) as (va & Hgva & HVa).
+  destruct (wrep_get c w st src bv HW Hgb) as (vb & Hgvb & HVb).
+  pose proof (vi_rep _ _ _ HVb) as HRb. pose proof (rep_len _ _ _ HRb) as Hlb.
+  cbn [make_offer]. unfold Interp.elem_bytes.
+  unfold bind at 1. unfold bind at 1. unfold bind at 1. rewrite (peek_vec_ok src w vb Hgvb).
+  unfold bind at 1. unfold assert_. rewrite Hlb.
+  destruct (N.ltb_spec sidx (N.of_nat (length (a_xs bv)))) as [Hlt|Hge].
+  2:{ injection Hr as <-. unfold raise.
+      cbn [res_matches panic_res s_out s_pk s_ret s_st s_evs s_nx].
+      split; [reflexivity|split; [reflexivity|split; [reflexivity|]]]. rewrite N.sub_diag.
+      apply step_ok_refl; assumption. }
+  set (j := N.to_nat sidx). assert (Hj : (j < length (a_xs bv))%nat) by (unfold j; lia).
+  assert (Ej : sidx = N.of_nat j) by (unfold j; lia).
+  set (t0 := nth j (a_xs bv) 0) in *.
+  unfold ret at 1. rewrite Ej.
+  rewrite (on_vec_ok src _ w vb _ vb (wuw w) Hgvb (read_elem c vb (wuw w) (a_xs bv) j HRb Hj)).
+  set (w1 := put_vec src (Some vb) (wuw w) w).
+  unfold ret at 1. cbv zeta. fold t0.
+  set (o := {| f_ty := c_ty c; f_src := VClone (enc (szn c) t0) false; f_checked := true; f_drop := DNone |}).
+  set (o' := match a with Typed => unchecked o | Erased => o end).
+  assert (Hty' : f_ty o' = c_ty c) by (unfold o'; destruct a; reflexivity).
+  assert (Hsrc' : f_src o' = VClone (enc (szn c) t0) false) by (unfold o'; destruct a; reflexivity).
+  assert (Hdrop' : f_drop o' = DNone) by (unfold o'; destruct a; reflexivity).
+  assert (Hg1a : get_vec vid w1 = Some va).
+  { rewrite get_vec_slot. unfold w1, put_vec. cbn [wv]. rewrite slot_set_nth.
+    destruct (Nat.eqb_spec vid src); [congruence|]. rewrite <- get_vec_slot. exact Hgva. }
+  assert (HW1 : WRep c w1 st) by (apply (wrep_put_same c w st src vb bv); assumption).
+  pose proof (raw_action_clone_spec c va av (wuw w1) idx (enc (szn c) t0) t0 false Hwf HVa
+                (dec_enc _ _ (elem_tok c vb bv j HVb Hj)) Hfuse (Hadm va Hgva)) as Hspec.
+  cbv zeta in Hspec. fold (tok c (unext (wuw w))) in Hr.
+  assert (Hnx1 : unext (wuw w1) = unext (wuw w)) by reflexivity. rewrite Hnx1 in Hspec.
+  unfold offer_into, unwinding.
+  destruct (put_value c av idx (tok c (unext (wuw w)))) as [xs'|p]; injection Hr as <-.
+  - destruct Hspec as (v' & u' & E & HV' & Hn' & Hf' & He').
+    unfold bind at 1. unfold bind at 1. unfold on_unwind. rewrite offer_check_pass by exact Hty'.
+    rewrite Hsrc'. rewrite (on_vec_ok vid _ w1 va tt v' u' Hg1a E).
+    unfold finish_offer. rewrite Hdrop'. unfold ret.
+    cbn [res_matches ok_res s_out s_pk s_ret s_st s_evs s_nx].
+    split; [reflexivity|split; [reflexivity|split; [reflexivity|]]].
+    constructor.
+    + apply wrep_put; [exact HW1|exact HV'].
+    + rewrite wuw_put. rewrite Hn'. cbn [s_nx ok_res]. lia.
+    + rewrite wuw_put. exact Hf'.
+    + rewrite wuw_put. rewrite He'. reflexivity.
+  - unfold bind at 1. unfold bind at 1. unfold on_unwind. rewrite offer_check_pass by exact Hty'.
+    rewrite Hsrc'. rewrite (on_vec_panic vid _ w1 va p va (wuw w1) Hg1a Hspec).
+    unfold quiet, drop_offer. rewrite Hdrop'. unfold ret. cbn [wuw wv ulog unext ufuse].
+    cbn [res_matches panic_res s_out s_pk s_ret s_st s_evs s_nx].
+    split; [reflexivity|split; [reflexivity|split; [reflexivity|]]]. rewrite N.sub_diag.
+    constructor; cbn [wuw wv ulog unext ufuse].
+    + apply (wrep_wv c (put_vec vid (Some va) (wuw w1) w1)); [reflexivity|].
+      apply (wrep_put_same c w1 st vid va av); assumption.
+    + unfold w1. rewrite !wuw_put. destruct (wuw w); cbn; lia.
+    + exact Hfuse.
+    + unfold w1. rewrite !wuw_put. unfold uevents. destruct (wuw w); reflexivity.
+Qed.
